@@ -1,7 +1,75 @@
-"""Regenerate coq/Gen/*.v from /repo's current source. Fail-closed per file."""
-import os
+"""Regenerate coq/Gen/*.v from /repo's current source.  Fail-closed: anything outside the shapes each generator
+understands makes that Gen file a one-line syntax error, so every proof that depends on it stops compiling.
+Only `ast` and `re._parser` are used; the library is never imported."""
+import ast, hashlib, os, sys, traceback
+
+REPO = os.environ.get("VERIF_REPO", "/repo")
+PKG = os.path.join(REPO, "jsonpath_rfc9535")
+OUT = "/verif/coq/Gen"
+
+
+class Unsupported(Exception):
+    pass
+
+
+def src(rel):
+    return open(os.path.join(PKG, rel), encoding="utf8").read()
+
+
+def parse(rel):
+    return ast.parse(src(rel))
+
+
+def write(name, body, status, sources):
+    path = os.path.join(OUT, name)
+    os.makedirs(OUT, exist_ok=True)
+    h = hashlib.sha256()
+    for s in sources:
+        h.update(src(s).encode("utf8"))
+    old = open(path, encoding="utf8").read() if os.path.exists(path) else None
+    if old != body:
+        open(path, "w", encoding="utf8").write(body)
+    status[name] = {"ok": True, "reason": "", "changed": old is not None and old != body, "source_sha256": h.hexdigest()[:16], "sources": sources}
+
+
+def fail(name, reason, status, sources):
+    path = os.path.join(OUT, name)
+    os.makedirs(OUT, exist_ok=True)
+    body = "(* fail-closed: %s *)\nTranslation failed closed.\n" % reason.replace("*)", "* )")[:500]
+    old = open(path, encoding="utf8").read() if os.path.exists(path) else None
+    if old != body:
+        open(path, "w", encoding="utf8").write(body)
+    status[name] = {"ok": False, "reason": reason[:400], "changed": old != body, "sources": sources}
+
+
+def coq_str(s):
+    """a Python str as a Coq list N literal"""
+    return "[" + "; ".join(str(ord(c)) for c in s) + "]%N" if s else "(@nil N)"
 
 
 def generate():
-    """returns {gen file: {ok, reason, changed, source_sha256}}"""
-    return {}
+    from . import gen_api, gen_effects, gen_cli, gen_consts
+    status = {}
+    for name, fn, sources in (
+        ("Api.v", gen_api.emit, ["query.py", "environment.py", "__init__.py"]),
+        ("Effects.v", gen_effects.emit, gen_effects.SOURCES),
+        ("Cli.v", gen_cli.emit, ["cli.py", "exceptions.py"]),
+        ("LexConst.v", gen_consts.emit_lex, ["lex.py"]),
+        ("ParseConst.v", gen_consts.emit_parse, ["parse.py", "filter_expressions.py"]),
+        ("Env.v", gen_consts.emit_env, ["environment.py", "function_extensions/length.py", "function_extensions/count.py",
+                                         "function_extensions/value.py", "function_extensions/match.py", "function_extensions/search.py",
+                                         "function_extensions/_pattern.py"]),
+    ):
+        try:
+            write(name, fn(), status, sources)
+        except Unsupported as ex:
+            fail(name, "unsupported source shape: %s" % ex, status, sources)
+        except Exception as ex:      # a crash of the translator is also a closed failure
+            fail(name, "translator error: %r" % (ex,), status, sources)
+    return status
+
+
+if __name__ == "__main__":
+    import json
+    sys.path.insert(0, "/verif/tools")
+    print(json.dumps(generate(), indent=1))
